@@ -4,6 +4,7 @@
 //         queued count, the started messages in order; then MAXRUN n FIN accepted finished WAITEARLY 0/1
 //   mt P seed n limit succ : source -> limited function_node -> `succ` counting successors (real threads, oracle)
 #include "common.h"
+#include <memory>
 #include <mutex>
 #include <algorithm>
 #include <map>
@@ -218,6 +219,63 @@ static int mtpull_run(int P, unsigned seed, int rounds, int conc) {
     return 0;
 }
 
+// zoo: the other node kinds of the property.  (1) input_node -> limited function_node -> multifunction_node routing even/odd -> two queue_nodes: every produced
+// value exactly once on the right port;  (2) continue_node with k predecessors fires once per k signals;  (3) async_node: wait_for_all does not return while a
+// reserve_wait is outstanding, every result submitted through the gateway arrives once;  (4) after an exception in a body no further body starts once
+// wait_for_all has thrown, and the graph is cancelled.
+static int zoo_run(int P, unsigned seed, int n) {
+    tbb::global_control gc(tbb::global_control::max_allowed_parallelism, P);
+    std::mt19937 r(seed);
+    long lostdup = 0, wrongport = 0, contbad = 0, asyncbad = 0, waitearly = 0, startedafter = 0, overlimit = 0;
+    {   // (1)
+        graph g; int next = 0; int lim = 1 + (int)(r() % 3);
+        input_node<long> in(g, [&](tbb::flow_control& fc) -> long { if (next >= n) { fc.stop(); return 0; } return next++; });
+        std::atomic<int> running{0};
+        function_node<long, long> f(g, (size_t)lim, [&](long v) { if (++running > lim) overlimit++; for (volatile int k = 0; k < 300; ++k) {} --running; return v; });
+        typedef multifunction_node<long, std::tuple<long, long>> mf_t;
+        mf_t mf(g, unlimited, [](const long& v, mf_t::output_ports_type& ports) { if (v % 2 == 0) std::get<0>(ports).try_put(v); else std::get<1>(ports).try_put(v); });
+        queue_node<long> q0(g), q1(g);
+        make_edge(in, f); make_edge(f, mf); make_edge(output_port<0>(mf), q0); make_edge(output_port<1>(mf), q1);
+        in.activate(); g.wait_for_all();
+        std::vector<int> seen(n, 0); long x;
+        while (q0.try_get(x)) { if (x % 2) wrongport++; if (x >= 0 && x < n) seen[x]++; }
+        while (q1.try_get(x)) { if (x % 2 == 0) wrongport++; if (x >= 0 && x < n) seen[x]++; }
+        for (int i = 0; i < n; ++i) if (seen[i] != 1) lostdup++;
+    }
+    {   // (2)
+        graph g; int k = 1 + (int)(r() % 4); int rounds = 1 + (int)(r() % 20); std::atomic<int> fired{0};
+        broadcast_node<continue_msg> start(g);
+        std::vector<std::unique_ptr<function_node<continue_msg, continue_msg>>> preds;
+        continue_node<continue_msg> c(g, [&](const continue_msg&) { fired++; return continue_msg(); });
+        for (int i = 0; i < k; ++i) { preds.emplace_back(new function_node<continue_msg, continue_msg>(g, serial, [](const continue_msg&) { return continue_msg(); })); make_edge(start, *preds.back()); make_edge(*preds.back(), c); }
+        for (int i = 0; i < rounds; ++i) { start.try_put(continue_msg()); g.wait_for_all(); if (fired.load() != i + 1) { contbad++; break; } }
+    }
+    {   // (3)
+        graph g; typedef async_node<long, long> an_t; std::vector<std::thread> bg; std::mutex bgm; std::atomic<bool> released{false}; std::atomic<int> got{0};
+        an_t a(g, unlimited, [&](const long& v, an_t::gateway_type& gw) { gw.reserve_wait(); an_t::gateway_type* pg = &gw;
+            std::lock_guard<std::mutex> lk(bgm);
+            bg.emplace_back([pg, v, &released] { std::this_thread::sleep_for(std::chrono::milliseconds(5 + v % 7)); pg->try_put(v * 10); if (v == 0) released = true; pg->release_wait(); }); });
+        function_node<long, continue_msg> sink(g, serial, [&](long v) { if (v % 10 == 0) got++; return continue_msg(); });
+        make_edge(a, sink);
+        int m = 1 + (int)(r() % 6); for (int i = 0; i < m; ++i) a.try_put(i);
+        g.wait_for_all();
+        if (!released.load()) waitearly++;                        // returned while a reserve_wait was outstanding
+        for (auto& t : bg) t.join();
+        if (got.load() != m) asyncbad++;
+    }
+    {   // (4)
+        graph g; std::atomic<long> started{0}; struct Boom {};
+        function_node<long, long> f(g, serial, [&](long v) -> long { started++; if (v == 3) throw Boom(); for (volatile int k = 0; k < 2000; ++k) {} return v; });
+        bool caught = false;
+        try { for (int i = 0; i < 40; ++i) f.try_put(i); g.wait_for_all(); } catch (Boom&) { caught = true; }
+        long s0 = started.load(); std::this_thread::sleep_for(std::chrono::milliseconds(5));
+        if (started.load() != s0) startedafter++;
+        if (!caught || !g.is_cancelled()) startedafter++;
+    }
+    std::printf("LOSTDUP %ld WRONGPORT %ld CONTINUE %ld ASYNC %ld WAITEARLY %ld STARTEDAFTER %ld OVERLIMIT %ld\n", lostdup, wrongport, contbad, asyncbad, waitearly, startedafter, overlimit);
+    return 0;
+}
+
 int main(int argc, char** argv) {
     std::string mode = argc > 1 ? argv[1] : "";
     if (mode == "seq") {
@@ -233,6 +291,7 @@ int main(int argc, char** argv) {
         return 0;
     }
     if (mode == "mtmix") return mtmix_run(atoi(argv[2]), (unsigned)atoi(argv[3]), atoi(argv[4]), atoi(argv[5]), atoi(argv[6]));
+    if (mode == "zoo") return zoo_run(atoi(argv[2]), (unsigned)atoi(argv[3]), atoi(argv[4]));
     if (mode == "mtpull") return mtpull_run(atoi(argv[2]), (unsigned)atoi(argv[3]), atoi(argv[4]), atoi(argv[5]));
     if (mode == "mt") return mt_run(atoi(argv[2]), (unsigned)atoi(argv[3]), atoi(argv[4]), atoi(argv[5]), atoi(argv[6]));
     return 2;
